@@ -8,6 +8,10 @@
 (*   dcache    [class -> [dir -> set of dialect names]] per-class dialect  *)
 (*             caches, created in the class's OWN namespace                *)
 (*   codecs    set of codec holders created so far (id, dir, dialect)      *)
+(*   gspecs    [dir -> set of <<key, specialised class term>>]: the        *)
+(*             specialisations of nested GENERIC dataclasses installed on  *)
+(*             the generic class, keyed by a name derived from the type    *)
+(*             arguments (first compilation under a key wins)              *)
 (*   hist      observable history (what a client of the API saw)           *)
 (*   last      the artifact used by the last call (implementation level)   *)
 (*                                                                         *)
@@ -22,7 +26,7 @@
 (*                                                                         *)
 (* The class family and the dialects are constants of the model (MC_Sys).  *)
 (***************************************************************************)
-EXTENDS Discr, Json
+EXTENDS Discr, Json, SequencesExt
 
 CONSTANTS ClassOf(_),     \* name -> dataclass term
           ParentOf(_),    \* name -> parent name or "#none"
@@ -36,9 +40,11 @@ CONSTANTS ClassOf(_),     \* name -> dataclass term
                           \* "inherited" (deviant: found through the parent) | "noformat" (deviant: not keyed by format)
           Codecs,         \* TRUE: CreateCodec / CodecCall actions enabled (C15)
           FmtsOf(_),      \* class name -> set of formats its mixin offers ("dict" always; "msgpack" / "orjson" for format mixins)
-          KwNames         \* keyword arguments usable in calls: subset of {"none", "omit_none", "by_alias", "newline"}
+          KwNames,        \* keyword arguments usable in calls: subset of {"none", "omit_none", "by_alias", "newline"}
+          SpecKeyMode     \* "exact" (documented: one specialisation per distinct tuple of type arguments, member ORDER included) |
+                          \* "equal" (deviant: type arguments that compare equal, e.g. Union[int, str] and Union[str, int], share one)
 
-VARIABLES defined, methods, dcache, codecs, hist, last
+VARIABLES defined, methods, dcache, codecs, gspecs, hist, last
 
 Dirs == {"to", "from"}
 IsLazy(n) == GetOpt(DcCfg(ClassOf(n)), "lazy", FALSE)
@@ -79,7 +85,47 @@ TwinT(T, d) ==
     [] OTHER -> T
 Twin(n, d) == IF d = "none" THEN ClassOf(n) ELSE TwinT(ClassOf(n), d)
 
+\* ---- nested generic dataclasses.  A dataclass term carrying the option <<"generic", <<params, args, template fields>> >>
+\* is the specialisation Box[args] of the generic class Box: its MEANING is the plain dataclass with the arguments substituted
+\* (that is the term itself); the MECHANISM compiles one method per specialisation and installs it on the generic class
+\* under a name derived from the arguments, and finds it again by that name.
+IsGeneric(T) == T[1] = "dc" /\ GetOpt(DcCfg(T), "generic", <<>>) # <<>>
+GenArgs(T) == GetOpt(DcCfg(T), "generic", <<>>)[2]
+RECURSIVE ArgKey(_)
+ArgKey(T) ==
+  CASE T[1] = "union" -> IF SpecKeyMode = "exact" THEN <<"union", [i \in DOMAIN T[2] |-> ArgKey(T[2][i])]>>
+                         ELSE <<"union=", { ArgKey(T[2][i]) : i \in DOMAIN T[2] }>>
+    [] T[1] \in {"list", "opt", "set", "deque", "vtuple", "seq", "frozenset"} -> <<T[1], ArgKey(T[2])>>
+    [] T[1] \in {"dict", "mapping", "odict"} -> <<T[1], ArgKey(T[2]), ArgKey(T[3])>>
+    [] T[1] = "tuple" -> <<"tuple", [i \in DOMAIN T[2] |-> ArgKey(T[2][i])]>>
+    [] OTHER -> T
+SpecKey(T) == <<T[2], [i \in DOMAIN GenArgs(T) |-> ArgKey(GenArgs(T)[i])]>>
+\* the generic specialisations a class term refers to, in compilation (field) order
+RECURSIVE GenSeq(_)
+GenSeq(T) ==
+  CASE T[1] = "dc" -> (IF IsGeneric(T) THEN <<T>> ELSE <<>>) \o FlattenSeq([i \in DOMAIN T[3] |-> GenSeq(T[3][i][2])])
+    [] T[1] \in {"list", "opt", "set", "deque", "vtuple", "seq", "frozenset"} -> GenSeq(T[2])
+    [] T[1] \in {"dict", "mapping", "odict"} -> GenSeq(T[3])
+    [] T[1] \in {"tuple", "union"} -> FlattenSeq([i \in DOMAIN T[2] |-> GenSeq(T[2][i])])
+    [] OTHER -> <<>>
+\* compiling a method of class term T installs every specialisation whose key is not taken yet
+InstallSpecs(tab, T) ==
+  FoldLeft(LAMBDA acc, g : IF \E e \in acc : e[1] = SpecKey(g) THEN acc ELSE acc \cup {<<SpecKey(g), g>>}, tab, GenSeq(T))
+\* the class term a compiled method of T actually computes with: every specialisation is whatever sits under its key
+RECURSIVE Resolve(_, _)
+Resolve(T, tab) ==
+  CASE T[1] = "dc" ->
+         LET U == IF IsGeneric(T) /\ (\E e \in tab : e[1] = SpecKey(T)) THEN (CHOOSE e \in tab : e[1] = SpecKey(T))[2] ELSE T IN
+         <<"dc", U[2], [i \in DOMAIN U[3] |-> <<U[3][i][1], Resolve(U[3][i][2], tab), U[3][i][3], U[3][i][4]>>], U[4]>>
+    [] T[1] \in {"list", "opt", "set", "deque", "vtuple", "seq", "frozenset"} -> <<T[1], Resolve(T[2], tab)>>
+    [] T[1] \in {"dict", "mapping", "odict"} -> <<T[1], T[2], Resolve(T[3], tab)>>
+    [] T[1] \in {"tuple", "union"} -> <<T[1], [i \in DOMAIN T[2] |-> Resolve(T[2][i], tab)]>>
+    [] OTHER -> T
+Mechanism(n, tab) == IF GenSeq(ClassOf(n)) = <<>> THEN ClassOf(n) ELSE Resolve(ClassOf(n), tab)
+MechResult(a, kw, x, tab) == IF a[2] = "to" THEN Pack(Mechanism(a[1], tab), CxFor(a[3], a[4], kw), x) ELSE Unpack(Mechanism(a[1], tab), CxFor(a[3], a[4], kw), x)
+
 Init == /\ defined = <<>>
+        /\ gspecs = [dir \in Dirs |-> {}]
         /\ methods = [n \in {} |-> 0]
         /\ dcache = [n \in {} |-> 0]
         /\ codecs = {}
@@ -96,6 +142,7 @@ Define(n) ==
   /\ defined' = Append(defined, n)
   /\ methods' = [m \in DOMAIN methods \cup {n} |-> IF m = n THEN [dir \in Dirs |-> IF IsLazy(n) THEN "stub" ELSE "real"] ELSE methods[m]]
   /\ dcache' = [m \in DOMAIN dcache \cup {n} |-> IF m = n THEN [dir \in Dirs |-> {}] ELSE dcache[m]]
+  /\ gspecs' = IF IsLazy(n) THEN gspecs ELSE [dir \in Dirs |-> InstallSpecs(gspecs[dir], ClassOf(n))]
   /\ hist' = Append(hist, <<"Define", n>>)
   /\ last' = <<"define", n>>
   /\ UNCHANGED codecs
@@ -118,9 +165,11 @@ Call(n, dir, f, d, kw) ==
                      THEN LET e == CHOOSE e \in hits : TRUE IN <<owner, dir, e[1], d>>     \* cache hit: whatever was compiled into that dictionary
                      ELSE <<n, dir, f, d>>                                              \* miss: compile for the receiver and insert
          x == ArgOf(n, dir, f)
+         tab == IF methods[n][dir] = "stub" THEN InstallSpecs(gspecs[dir], ClassOf(n)) ELSE gspecs[dir]
      IN /\ methods' = [methods EXCEPT ![n][dir] = "real"]                          \* a stub compiles itself on its first call
+        /\ gspecs' = [gspecs EXCEPT ![dir] = tab]
         /\ dcache' = IF d = "none" \/ hits # {} THEN dcache ELSE [dcache EXCEPT ![owner][dir] = @ \cup {<<f, d>>}]
-        /\ last' = <<"call", art, ArtifactResult(art, kw, x), Outcome(n, dir, f, d, kw)>>
+        /\ last' = <<"call", art, MechResult(art, kw, x, tab), Outcome(n, dir, f, d, kw)>>
         /\ hist' = Append(hist, <<"Call", n, dir, d, f, kw>>)
   /\ UNCHANGED <<defined, codecs>>
 
@@ -135,12 +184,12 @@ CreateCodec(n, dir, d) ==
   /\ codecs' = codecs \cup {<<n, dir, d>>}
   /\ hist' = Append(hist, <<"CreateCodec", n, dir, d>>)
   /\ last' = <<"codec", n>>
-  /\ UNCHANGED <<defined, methods, dcache>>
+  /\ UNCHANGED <<defined, methods, dcache, gspecs>>
 CodecCall(n, dir, d) ==
   /\ Codecs /\ <<n, dir, d>> \in codecs
   /\ hist' = Append(hist, <<"CodecCall", n, dir, d>>)
   /\ last' = <<"codeccall", n>>
-  /\ UNCHANGED <<defined, methods, dcache, codecs>>
+  /\ UNCHANGED <<defined, methods, dcache, codecs, gspecs>>
 
 Next == /\ Len(hist) < MaxLen
         /\ \/ \E n \in Names : Define(n)
@@ -160,7 +209,7 @@ IsolationEq ==
        LET x == IF dir = "to" THEN ValueOf(n) ELSE InputOf(n) T2 == Twin(n, d) IN
        Outcome(n, dir, "dict", d, "none") = (IF dir = "to" THEN Pack(T2, DefaultCx, x) ELSE Unpack(T2, DefaultCx, x))
 \* creating codecs never changes what a class does (C15): the class-level state is untouched
-CodecPure == [][ (\E n \in Names, dir \in Dirs, d \in DNames : CreateCodec(n, dir, d)) => UNCHANGED <<methods, dcache, defined>> ]_<<defined, methods, dcache, codecs, hist, last>>
+CodecPure == [][ (\E n \in Names, dir \in Dirs, d \in DNames : CreateCodec(n, dir, d)) => UNCHANGED <<methods, dcache, defined, gspecs>> ]_<<defined, methods, dcache, codecs, gspecs, hist, last>>
 \* mixin and codec agree when the codec's default dialect plays the role of the call dialect's lowest level (C15)
 
 \* the expectation tables are printed once (history-free by construction), behaviours at full length
